@@ -775,31 +775,23 @@ def analyse_searches(prog, F):
 
 
 def post_dominates_within(cfg, b, entry, loop):
-    """every path from block `entry` that stays in the loop body and reaches the loop increment/condition passes block b"""
-    fn = cfg.fn
-    body_blocks = set()
-    for d in loop.body.walk():
-        p = cfg.positions().get(d.i)
-        if p:
-            body_blocks.add(p[0])
+    """every path from block `entry` (first block of the loop body) that comes back to the loop header for the next
+    iteration passes block b.  Paths that leave the loop altogether (break / return / throw) do not matter."""
+    header = cfg.pos_of(loop.cond)[0] if loop.cond is not None and cfg.pos_of(loop.cond) else None
+    if header is None:
+        return False
     seen = set()
     work = [entry]
     while work:
         x = work.pop()
         if x in seen or x == b:
             continue
+        if x == header:
+            return False
         seen.add(x)
-        blk = cfg.blocks[x]
-        for s in blk.succ:
-            if s is None:
-                continue
-            if s not in body_blocks:
-                # left the body without passing b: fine only if this leaves the loop through a throw/return
-                ends = [fn.nodes.get(e) for e in blk.elems if e is not None and e >= 0]
-                if any(n is not None and n.k in ('ReturnStmt', 'CXXThrowExpr', 'BreakStmt') for n in ends):
-                    continue
-                return False
-            work.append(s)
+        for s in cfg.blocks[x].succ:
+            if s is not None:
+                work.append(s)
     return True
 
 
